@@ -12,8 +12,24 @@ def ob(fn, pkg, what, qb="", tb=None, q=None, t=None, reach=("done",), terminati
     if termination: o["termination"] = True
     if no_validate: o["no_validate"] = True
     return o
-def check(pid, title, obs, assumptions=(), outside=(), lemmas=()):
-    C[pid] = {"title": title, "obligations": obs, "assumptions": list(assumptions), "outside": list(outside), "lemmas": list(lemmas)}
+def check(pid, title, obs, assumptions=(), outside=(), lemmas=(), method_sets=()):
+    C[pid] = {"title": title, "obligations": obs, "assumptions": list(assumptions), "outside": list(outside), "lemmas": list(lemmas), "method_sets": list(method_sets)}
+
+# Entry points the C16/C19/C07 harnesses know about, classified when the harnesses were written. The driver compares
+# these lists with the method sets of the current tree (go/types) on every run: a method that is not listed is a new
+# entry point no harness covers and is reported as INCONCLUSIVE (never silently passed).
+FACADE = {"pkg": "pkg/engine", "type": "EngineFacade", "known": [
+    # client mutators (must be refused on a replica)
+    "Put", "Delete", "ApplyBatch", "BeginTransaction", "TriggerCompaction", "CompactRange", "FlushImMemTables",
+    # replication bypasses and mode switch
+    "PutInternal", "DeleteInternal", "ApplyBatchInternal", "SetReadOnly",
+    # readers / status / plumbing
+    "Get", "IsDeleted", "GetIterator", "GetRangeIterator", "GetStats", "GetCompactionStats", "IsReadOnly", "Close",
+    "GetTransactionManager", "GetWAL", "GetRWLock", "IncrementTxAborted", "IncrementTxCompleted"]}
+ENGINE_IFACE = {"pkg": "pkg/engine/interfaces", "type": "Engine", "known": ["Put", "Get", "Delete", "IsDeleted", "GetIterator", "GetRangeIterator", "ApplyBatch",
+    "BeginTransaction", "FlushImMemTables", "TriggerCompaction", "CompactRange", "GetStats", "GetCompactionStats", "Close", "IsReadOnly"]}
+SERVICE = {"pkg": "proto/kevo", "type": "KevoServiceServer", "known": ["Get", "Put", "Delete", "BatchWrite", "Scan", "BeginTransaction", "CommitTransaction",
+    "RollbackTransaction", "TxGet", "TxPut", "TxDelete", "TxScan", "GetStats", "Compact", "GetNodeInfo"]}
 
 SIMFS = "simfs: os/filepath calls go to an in-engine file-system model (write appends to the file image, fsync moves the durable watermark, rename atomic, O_EXCL honoured; directory-entry durability assumed)"
 CLOCK = "time.Now is a strictly increasing concrete clock; tickers never fire by themselves"
@@ -187,7 +203,8 @@ check("C16", "a replica refuses client writes but keeps applying replicated ones
        "4 role configurations x 2 rounds x 2 flag values"),
     ob("VerifC16_ApplyVsClientWrite", "pkg/engine", "a replicated operation applied through PutInternal / DeleteInternal / ApplyBatchInternal concurrently with a client put / delete / batch / read-write transaction and a status query: the client write is refused, its key never appears, the replicated operation takes effect, read-only is reported throughout, no lock left held",
        "3 apply shapes x 4 client shapes, preemption bound 1", "preemption bound 2", q=P1, t=P2, no_validate=True),
-], [SIMFS, CLOCK, HASH, BLOOM, JSON, LOG, TIERA], [])
+], [SIMFS, CLOCK, HASH, BLOOM, JSON, LOG, TIERA, "entry points are hand-listed in the harnesses; the method sets of EngineFacade, interfaces.Engine and pb.KevoServiceServer are compared with the listed ones on every run, a new method is reported as not covered"],
+   ["CompactRange / TriggerCompaction / FlushImMemTables on a replica (maintenance, not client data mutations)"], method_sets=[FACADE, ENGINE_IFACE, SERVICE])
 
 check("C17", "every transaction ends and releases the database", [
     ob("VerifC17_BeginTimeoutNoLeak", "pkg/transaction", "RegistryImpl.Begin timing out while another transaction holds the lock: no transaction is left holding the lock unreachable", "preemption bound 1", "preemption bound 2", q=P1, t=P2, no_validate=True),
@@ -208,7 +225,7 @@ check("C19", "the network API behaves like the embedded API", [
        "3 keys, 1-byte filters, limit 0..2, preemption bound 0 (Begin's worker goroutine)", q={"preempt": 0}, no_validate=True),
     ob("VerifC19_BatchWriteLimits", "pkg/grpc/service", "BatchWrite with a valid batch or one violating a documented limit (empty key, 4097-byte key, unknown operation, 1001 operations) at a symbolic position: valid => effect of the embedded batch; rejected => error, no effect, database lock free, later Put and Scan complete",
        "2 operations (1001 for the size limit), 5 conditions x 2 positions"),
-], [SIMFS, CLOCK, HASH, BLOOM, JSON, LOG], ["wire encoding", "interceptors", "TLS"])
+], [SIMFS, CLOCK, HASH, BLOOM, JSON, LOG, "handlers are hand-listed; pb.KevoServiceServer's method set is compared with the listed handlers on every run"], ["wire encoding", "interceptors", "TLS", "GetStats, Compact (no embedded counterpart with observable data effect)"], method_sets=[SERVICE])
 
 check("C20", "configuration is validated and persists", [
     ob("VerifC20_Validate", "pkg/config", "Config.Validate with every field symbolic (float64 ratio as an SMT FP term) equals the documented predicate", "all 25 fields symbolic (64-bit integers, strings empty/non-empty, float as IEEE-754 bit pattern incl. NaN/Inf)"),
